@@ -325,7 +325,7 @@ def _history_stage(ctx, pid, sp, pr, cov):
             ctx, env={"VERIF_SEED": str(ctx.seed + 1000), "VERIF_CASES": "140"}, suffix="_search",
             use_cache=False)
         for row in rows2 or []:
-            fails = pred(row)
+            fails = pred(row) + (hs.pred_hint_row(row) if pid == "C04" else hs.pred_sort_row(row))
             if fails and found < 2:
                 found += 1
                 ctx.violation("impl_violates_predicate", theorem,
